@@ -32,20 +32,23 @@ RfDigit(i, size) == (7 * i + 1) % size  \* the committed digit of ring i
 
 \* assemble a proof from digit commitments Ds (all rings), their serialized x coordinates xs (rings-1, normally
 \* X32(Ds[i]) -- the adversary may write other bytes), the ring layout and the ring secrets
-RfAssemble(hb, C, H, Ds, bases, rs, secidx, secs, extra, xs) ==
+\* z = flat position (1-based) whose forged scalar the adversary chooses to be ZERO (0: none): the ring equation still closes
+RfAssembleZ(hb, C, H, Ds, bases, rs, secidx, secs, extra, xs, z) ==
   LET rings == Len(rs)
       nch   == RpSum(rs)
       signs == IF rings = 1 THEN << >> ELSE [i \in 1..(rings - 1) |-> IF IsSquare(Ds[i][2]) THEN 0 ELSE 1]
       sb    == IF RpSignBytes(rings) = 0 THEN << >> ELSE [b \in 1..RpSignBytes(rings) |-> RpPackBits(signs, 8 * (b - 1) + 1, 0)]
       m     == RpMsgHash(C, H, hb, signs, xs, extra)
-      bs    == BorSign(RpKeys(Ds, bases, rs), [p \in 1..nch |-> RfForged(p)], [i \in 1..rings |-> RfNonce(i)], secs, rs, secidx, m)
+      bs    == BorSign(RpKeys(Ds, bases, rs), [p \in 1..nch |-> IF p = z THEN Zero ELSE RfForged(p)], [i \in 1..rings |-> RfNonce(i)], secs, rs, secidx, m)
   IN  [ ok |-> bs[1], C |-> C, H |-> H, rs |-> rs, secidx |-> secidx,
         soff |-> Len(hb) + Len(sb) + 32 * (rings - 1) + 32,          \* the scalars start behind this offset
         doff |-> Len(hb) + Len(sb),                                   \* the digit commitments start behind this offset
         proof |-> hb \o sb \o (IF rings = 1 THEN << >> ELSE Flatten(xs)) \o bs[2] \o Flatten([p \in 1..nch |-> Scalar32(bs[3][p])]) ]
 
+RfAssemble(hb, C, H, Ds, bases, rs, secidx, secs, extra, xs) == RfAssembleZ(hb, C, H, Ds, bases, rs, secidx, secs, extra, xs, 0)
+
 \* standard construction: D_i = sec_i G + d_i 4^i 10^exp H,  C = sum D_i + min H
-RfProof(hb, H, extra) ==
+RfProofZ(hb, H, extra, z) ==
   LET L     == RfLenient(hb)
       rs    == RpRsizes(L.mant)
       rings == Len(rs)
@@ -54,7 +57,8 @@ RfProof(hb, H, extra) ==
       secs  == [i \in 1..rings |-> RfSec(i)]
       Ds    == [i \in 1..rings |-> PAdd(PMulG(secs[i]), PMul(FromNat(ds[i]), bases[i]))]
       C     == PAdd(SumPoints(Ds), PMul(L.minv, H))
-  IN  RfAssemble(hb, C, H, Ds, bases, rs, ds, secs, extra, IF rings = 1 THEN << >> ELSE [i \in 1..(rings - 1) |-> X32(Ds[i])])
+  IN  RfAssembleZ(hb, C, H, Ds, bases, rs, ds, secs, extra, IF rings = 1 THEN << >> ELSE [i \in 1..(rings - 1) |-> X32(Ds[i])], z)
+RfProof(hb, H, extra) == RfProofZ(hb, H, extra, 0)
 \* a digit commitment with a TINY x coordinate (so that x + p still fits in 32 bytes): the adversary picks the point T
 \* first and then the GENERATOR  H' = T - sec G,  which makes member 1 of ring 0 (T - H') a known multiple of G.
 \* Two rings (mantissa 4, exponent 0).  plusP: write x + p instead of x for that digit.
